@@ -99,6 +99,18 @@ def run_check(prop, tier):
             print("minimised to %d step(s) in %d test(s)" % (
                 len(small["steps"]), tests))
             print("VIOLATION property=%s replay=%s" % (prop, path))
+    # determinism spot check: the first runs again, twice, digests compared
+    spot_jobs = [] if unknown else jobs[:8] + jobs[-4:]
+    d1 = kernel.run_batch(wl, spot_jobs, workers, 1800, keep_digests=True)
+    d2 = kernel.run_batch(wl, spot_jobs, max(1, workers // 4), 1800,
+                          keep_digests=True)
+    if d1.harness_errors or d2.harness_errors or d1.digests != d2.digests:
+        print("HARNESS-ERROR: determinism spot check failed: %s" % (
+            (d1.harness_errors + d2.harness_errors)[:2] or sorted(
+                k for k in d1.digests
+                if d1.digests[k] != d2.digests.get(k))))
+        return 2
+    wl._spot = {"runs_repeated": len(d1.digests), "digest_mismatches": 0}
     cross = {}
     if (tier == "thorough" or os.environ.get("VERIF_CROSSCHECK")) and hasattr(
             wl, "crosscheck"):
@@ -177,6 +189,7 @@ def write_evidence(prop, wl, tier, seed, agg, wall, n_unknown, workers,
         coverage.update(extra(agg))
     for key, val in getattr(wl, "_cross", {}).items():
         coverage[key] = val
+    coverage["determinism_spot_check"] = getattr(wl, "_spot", {})
     kernel.write_evidence(prop, tier, seed, coverage, wall, n_unknown,
                           wl.ASSUMPTIONS)
 
